@@ -21,6 +21,15 @@ def cases(tier, seed):
     chunk = 8
     for i in range(0, len(descs), chunk):
         out.append({'descs': descs[i:i + chunk], 'tier': tier, 'cost': sum(len(d['widths']) ** 2 for d in descs[i:i + chunk])})
+    # different spaces with the same number of basis functions on the same domain, requested one after the other in one
+    # process (anything cached per process must be keyed by the whole space)
+    def D(d, per, nc, flag):
+        return {'degree': d, 'periodic': per, 'widths': [1] * nc, 'flag': flag, 'scale': 1.0 / nc, 'offset': 0.0}
+    for m in (3, 4, 6):
+        for d in (3, 2):
+            a, b = D(d, True, m + d, d == 3), D(d, False, m, d == 3)
+            out.append({'descs': [a, b, a, b], 'tier': tier, 'cost': 10})
+            out.append({'descs': [b, a, b], 'tier': tier, 'cost': 10})
     return out
 
 
